@@ -342,3 +342,24 @@ func Roots(bound int, x *Result) [][]int {
 	}
 	return out
 }
+
+// RootsFrom lists the first deviations from execution x at steps >= from that
+// stay within the preemption bound: the roots of the independent subtrees
+// below x (x itself is not included).
+func RootsFrom(bound int, x *Result, from int) [][]int {
+	var out [][]int
+	for i := from; i < len(x.Steps); i++ {
+		p := x.Steps[i]
+		cost := x.PreemptionsBefore(i)
+		if p.RunningEnabled {
+			cost++
+		}
+		if cost > bound {
+			continue
+		}
+		for alt := 1; alt < len(p.Enabled); alt++ {
+			out = append(out, append(append([]int{}, x.Choices[:i]...), alt))
+		}
+	}
+	return out
+}
